@@ -586,3 +586,14 @@ impl<'de> Deserialize<'de> for D {
         deserializer.deserialize_any(Vis)
     }
 }
+
+// the nine-component family (used by the duplicate-registry deserialization instances)
+num_component!(C0, u8, serialize_u8, visit_u8);
+num_component!(C1, u8, serialize_u8, visit_u8);
+num_component!(C2, u8, serialize_u8, visit_u8);
+num_component!(C3, u8, serialize_u8, visit_u8);
+num_component!(C4, u8, serialize_u8, visit_u8);
+num_component!(C5, u8, serialize_u8, visit_u8);
+num_component!(C6, u8, serialize_u8, visit_u8);
+num_component!(C7, u8, serialize_u8, visit_u8);
+num_component!(C8, u16, serialize_u16, visit_u16);
